@@ -424,7 +424,7 @@ impl Monitor for C01 {
         for i in 0..n {
             if i == migrate_at {
                 // upgrade of a token deployed by an older release: supply, balances and their equality survive it
-                let v = *h.rng.pick(&["0.13.4", "0.9.1", "0.13.0", "0.2.3", "1.1.2", "2.0.0", "0.7.0", "0.10.3", "0.1.0", "0.14.0", "0.16.0"]);
+                let v = *h.rng.pick(&["0.13.4", "0.9.1", "0.13.0", "0.2.3", "1.1.2", "2.0.0", "0.7.0", "0.10.3", "0.1.0", "0.14.0", "0.16.0", "0.12.0-alpha1", "0.10.0-soon4", "0.13.0-rc.2"]);
                 if v.starts_with("0.") {
                     let keys: Vec<Vec<u8>> = c.w.store.data.keys().filter(|k| k.windows(17).any(|w| w == b"allowance_spender")).cloned().collect();
                     for k in keys {
